@@ -230,13 +230,49 @@ def enc_hl(r):
 
 
 # ----------------------------------------------------------------------------------------------- generators
-DIST = ['0.1', '0.2', '0.25', '0.3', '0.4', '0.5', '0.6', '1', '1.5', '0.3', '0.3', '0.05', '2']
-VELS = [None, None, None, '0.1', '0.2', '0.25', '0.5', '1', '0.4']
-ANG = ['90', '45', '180', '360', '30', '72', '36', '-90', '0']
-RATES = [None, None, '72', '90', '45', '36', '180']
-RAD = ['0.5', '1', '0.25', '0.2', '-0.5']
+DIST = ['0.1', '0.2', '0.25', '0.3', '0.4', '0.5', '0.6', '1', '1.5', '0.3', '0.3', '0.05', '2', '0.01', '0.02', '3', '5']
+# the whole legal range, not only the comfortable one: 0.01 ... 5 m/s, default (None) most often
+VELS = [None, None, None, '0.1', '0.2', '0.25', '0.5', '1', '0.4', '0.01', '0.05', '1.25', '1.5', '2', '2.5', '3', '5']
+FAST = ['1', '1.25', '1.5', '2', '2.5', '3', '5']
+ANG = ['90', '45', '180', '360', '30', '72', '36', '-90', '0', '720', '1']
+RATES = [None, None, '72', '90', '45', '36', '180', '360', '720', '500', '5']
+RAD = ['0.5', '1', '0.25', '0.2', '-0.5', '2', '0.05']
 PYTH = [('0.3', '0.4', '0'), ('0.1', '0.2', '0.2'), ('0.2', '0.3', '0.6'), ('-0.3', '0', '0.4'), ('0', '-0.6', '0.8'),
-        ('0.4', '-0.4', '0.2'), ('0', '0', '-0.3'), ('0.5', '0', '0'), ('-0.2', '-0.1', '-0.2'), ('0', '0', '0.3')]
+        ('0.4', '-0.4', '0.2'), ('0', '0', '-0.3'), ('0.5', '0', '0'), ('-0.2', '-0.1', '-0.2'), ('0', '0', '0.3'),
+        ('3', '4', '0'), ('1', '2', '2'), ('-2', '3', '6'), ('0.03', '0', '-0.04'), ('1.2', '-1.2', '0.6')]
+MAX_OP_SECONDS = 12
+
+
+def _bound_duration(ops, rng):
+    """keep the virtual flight time of one blocking primitive below MAX_OP_SECONDS by making it FASTER (never by leaving the
+    fast / slow velocities out): long distances get the high velocities, the slow velocities the short distances"""
+    for op in ops:
+        name = op[0]
+        if name in MC_DISP_NAMES or name == 'move_distance':
+            vi = 2 if name in MC_DISP_NAMES else 4
+            if name in MC_DISP_NAMES:
+                length = abs(Fraction(op[1]))
+            else:
+                length = Fraction(int(math.isqrt(int(sum(Fraction(c) ** 2 for c in op[1:4]) * 10 ** 8)))) / 10 ** 4
+            v = abs(Fraction(op[vi] if op[vi] is not None else '0.2'))
+            if v != 0 and length / v > MAX_OP_SECONDS:
+                cands = [f for f in FAST if length / Fraction(f) <= MAX_OP_SECONDS]
+                op[vi] = rng.choice(cands or ['5'])
+        elif name in ('turn_left', 'turn_right'):
+            r = abs(Fraction(op[2] if op[2] is not None else '72'))
+            if r != 0 and abs(Fraction(op[1])) / r > MAX_OP_SECONDS:
+                op[2] = rng.choice(['180', '360', '720'])
+        elif name in ('circle_left', 'circle_right'):
+            v = abs(Fraction(op[2] if op[2] is not None else '0.2'))
+            ang = abs(Fraction(op[3] if op[3] is not None else '360'))
+            arc = 2 * abs(Fraction(op[1])) * Fraction('3.1416') * ang / 360
+            if v != 0 and arc / v > MAX_OP_SECONDS:
+                cands = [f for f in FAST if arc / Fraction(f) <= MAX_OP_SECONDS]
+                op[2] = rng.choice(cands or ['5'])
+    return ops
+
+
+MC_DISP_NAMES = ('left', 'right', 'forward', 'back', 'up', 'down')
 
 
 def _neg(s):
@@ -341,6 +377,7 @@ def gen_mc_case(rng, quirks=True):
         dh = rng.choice(['0.5', '1', '0.25', '0.2', '0.4'])
     elif quirks and r < 0.28:
         dh = rng.choice(['0', '-0.2'])
+    _bound_duration(ops, rng)
     return {'kind': 'mc', 'default_height': dh, 'ops': ops, 'sched': sched, 'epilogue': rng.choice(['1', '0.5', '0.4'])}
 
 
@@ -364,7 +401,7 @@ def gen_hl_case(rng, quirks=True):
     def vel():
         if quirks and rng.random() < 0.04:
             return rng.choice(['0', '-0.5'])
-        return rng.choice([None, None, '0.5', '1', '0.25', '0.2', '2'])
+        return rng.choice([None, None, '0.5', '1', '0.25', '0.2', '2', '3', '5', '0.05', '1.5'])
     for _ in range(n):
         k = rng.random()
         if k < 0.35:
@@ -435,6 +472,9 @@ def fixed_cases():
                  ['start_forward', '0.2'], ['wait', '0.15'], ['start_forward', '0.2'], ['wait', '0.15']]},
         {'kind': 'mc', 'default_height': None, 'sched': [0] * 12, 'epilogue': '1',
          'ops': [['stop'], ['wait', '0.1'], ['stop'], ['wait', '0.1'], ['stop'], ['wait', '0.3']]},
+        {'kind': 'mc', 'default_height': None, 'sched': [], 'epilogue': '0.5',
+         'ops': [['forward', '1', '2'], ['move_distance', '3', '4', '0', '5'], ['up', '0.5', '2.5'], ['circle_left', '0.5', '3', '90'],
+                 ['turn_right', '720', '720'], ['back', '0.01', '0.01']]},
         {'kind': 'hl', 'ops': [['down', '2', None]]},                                                               # F17b
         {'kind': 'hl', 'default_landing_height': '1', 'ops': []},                                                   # F17b
         {'kind': 'hl', 'ops': [['down', '0.5', None]]},                                      # height lands exactly on 0.0
@@ -460,6 +500,20 @@ def load_corpus():
 
 
 # ----------------------------------------------------------------------------------------------- tie
+def _hist(h, v, dflt):
+    if v is None:
+        key = dflt
+    elif 'deg' in dflt or dflt.endswith('72'):
+        x = abs(float(Fraction(v)))
+        key = ('0' if x == 0 else '(0,72)' if x < 72 else '[72,180]' if x <= 180 else '(180,360]' if x <= 360 else '(360,720]') + \
+              (' negative' if Fraction(v) < 0 else '')
+    else:
+        x = abs(float(Fraction(v)))
+        key = ('0' if x == 0 else '(0,0.1)' if x < 0.1 else '[0.1,1]' if x <= 1 else '(1,2]' if x <= 2 else '(2,5]' if x <= 5
+               else '(5,100]' if x <= 100 else '>100') + (' negative' if Fraction(v) < 0 else '')
+    h[key] = h.get(key, 0) + 1
+
+
 def _nontrivial(case, r):
     if case['kind'] == 'mc':
         return r['entered'] and len(case['ops']) >= 2 and sum(1 for e in r['events'] if e[0] == 'c.send_hover_setpoint') >= 10
@@ -509,6 +563,13 @@ def tie(ctx):
             key = case['kind'] + '.' + o[0]
             dist['ops'][key] = dist['ops'].get(key, 0) + 1
         dist['sched_defer_bits'] += sum(1 for b in case.get('sched', []) if not b)
+        if case['kind'] == 'mc':
+            for o in case['ops']:
+                vi = {'move_distance': 4, 'circle_left': 2, 'circle_right': 2}.get(o[0], 2 if o[0] in MC_DISP_NAMES else None)
+                if vi is not None and len(o) > vi:
+                    _hist(dist.setdefault('velocity_of_blocking_primitives_m_per_s', {}), o[vi], 'default 0.2')
+                if o[0] in ('turn_left', 'turn_right'):
+                    _hist(dist.setdefault('rate_of_turns_deg_per_s', {}), o[2], 'default 72')
         key = hashlib.sha1(json.dumps({k: v for k, v in case.items() if k != '_ghost'}, sort_keys=True).encode()).hexdigest()
         if key not in seen:
             seen.add(key)
